@@ -8,6 +8,8 @@ Line protocol of C21 (harness/cmd/tmh/c21.go):
   rule = `lhs:rhs:type:reports`, rhs `1,2,3` / `-`, reports `t/s/e+t/s/e` / `-`; rules joined by `;` (`_` none);
   tokTypes `sym:type,…` / `-`; types: one entry per node type joined by `;`, entry `_` or fields joined by `,`,
   field = `sel+sel/required/list/fetchAfter` (selector after category expansion, `-` empty).
+* `fields …` (same arguments) → `checkFields` only (hypothesis of `C21_checkFields_sound`; used for the shipped
+  grammars, which contain possibly-empty nodes).
 * `access <fields> <child types>` → per field the indices `access` returns (`-` nil node, `.` empty list).
 * `seqs <nTerms> <rules> <tokTypes> <T:kids;T:kids…>` → `ok` when every observed child sequence of a `T` node
   is in `L(approx g T)`, else `notin T:kids`.
@@ -117,6 +119,12 @@ def handle (args : List String) : Option String :=
     let nul := computeNullable g nSyms
     if checkTypes g alph nul types then some "ok"
     else some s!"reject: {explain g alph nul types}"
+  | ["fields", nt, rules, toks, _n, types] => do
+    let (g, nSyms) ← parseGrammar nt rules toks
+    let types ← parseTypes types
+    let alph := computeAlph g nSyms
+    if checkFields g alph types then some "ok"
+    else some s!"reject: {explainFields g alph types}"
   | ["access", fields, kids] => do
     let fields ← parseFields fields
     let w ← parseNats kids
@@ -134,6 +142,7 @@ def handle (args : List String) : Option String :=
       let fields ← parseFields fields
       let w ← parseNats kids
       some (judgeAccess fields w ans)
+    | (_, "::" :: "fields" :: _) => some "unknown: the validator does not accept this output (no input known)"
     | (_, "::" :: "validate" :: _) => some "unknown: the validator does not accept this output (no input known)"
     | (_, "::" :: "seqs" :: _) => some "unknown: an observed child sequence is outside the model's approximation"
     | _ => none
